@@ -81,6 +81,43 @@ theorem unsafe_params_refused {Ct} (P : XP Ct) (t : CTape) (sn n sn' : Bytes) (a
     · omega
     · omega
 
+/-- The client never sends an unsafe `g_b` of its own and completes: if it ends in `done`, its
+`g_b = g^b mod p` passed the same range tests as `g_a` (a client whose random `b` gives a weak `g_b`
+aborts with "bad g_b"). -/
+theorem success_implies_safe_gb {Ct} (P : XP Ct) (cfg : CCfg) (t : CTape) (ms : List (Msg Ct))
+    (r : CResult) (outs : List (Msg Ct)) (h : crun P cfg t .waitResPQ ms = (.done r, outs)) :
+    ∃ sn ans d, Msg.dhOk t.nonce sn ans ∈ ms ∧
+      P.decS (tempAESKeys P.sha1 t.newNonce sn) ans = some d ∧
+      1 < d.g.toNat ^ t.b % d.dhPrime ∧ d.g.toNat ^ t.b % d.dhPrime < d.dhPrime - 1 ∧
+      2 ^ 1984 < d.g.toNat ^ t.b % d.dhPrime ∧ d.g.toNat ^ t.b % d.dhPrime < d.dhPrime - 2 ^ 1984 ∧
+      2 ^ 1984 < d.gA ∧ d.gA < d.dhPrime - 2 ^ 1984 := by
+  obtain ⟨sn, pq, fps, fp, ans, d, hash, rest, hms, _, _, _, hdec, _, _, _, hpar, _⟩ :=
+    client_success_implies P cfg t ms r outs h
+  obtain ⟨_, _, _, _, hb1, hb2, ha3, ha4, hb3, hb4⟩ := checkDHParams_true _ _ _ _ hpar
+  have hmin : safetyMin = 2 ^ 1984 := by
+    unfold safetyMin; rw [show Facts.C09.rsaKeyBits = 2048 by decide]
+  rw [powMod_eq] at hb1 hb2 hb3 hb4
+  rw [hmin] at ha3 ha4 hb3 hb4
+  exact ⟨sn, ans, d, by rw [hms]; simp, hdec, hb1, hb2, hb3, hb4, ha3, ha4⟩
+
+/-- The DH validators the model interprets are the ones in crypto/dh.go, check_dh.go, check_gp.go
+(regenerated on every run): the ordered `InRange` tests of `CheckDHParams` (which value against
+which bounds), the definitions of the four bounds and of `InRange`, the order of `CheckDH`'s tests,
+`checkPrime`, and `CheckGP`'s switch table. -/
+theorem dh_validators_are :
+    Facts.C09.dhParamChecks =
+      [("g", "one", "dhPrimeMinusOne"), ("gA", "one", "dhPrimeMinusOne"), ("gB", "one", "dhPrimeMinusOne"),
+       ("gA", "safetyRangeMin", "safetyRangeMax"), ("gB", "safetyRangeMin", "safetyRangeMax")] ∧
+    Facts.C09.dhBound_one = "big.NewInt(1)" ∧
+    Facts.C09.dhBound_dhPrimeMinusOne = "big.NewInt(0).Sub(dhPrime, one)" ∧
+    Facts.C09.dhBound_safetyRangeMin = "big.NewInt(0).Exp(big.NewInt(2), big.NewInt(RSAKeyBits-64), nil)" ∧
+    Facts.C09.dhBound_safetyRangeMax = "big.NewInt(0).Sub(dhPrime, safetyRangeMin)" ∧
+    Facts.C09.inRangeBody = "return x.Cmp(min) > 0 && x.Cmp(max) < 0" ∧
+    Facts.C09.checkDHOrder = "p.BitLen() != RSAKeyBits | err := CheckGP(g, p); err != nil | return checkPrime(p)" ∧
+    Facts.C09.checkPrimeTestsBoth = true ∧ Facts.C09.checkSubgroupIsRem = true ∧
+    Facts.C09.gpTable = [(2, 8, [7]), (3, 3, [2]), (4, 1, [0]), (5, 5, [1, 4]), (6, 24, [19, 23]), (7, 7, [3, 5, 6])] := by
+  decide
+
 /-- A ResPQ that does not echo the client's nonce, or offers no trusted fingerprint, or a pq above
 2^63, is refused. -/
 theorem bad_respq_refused {Ct} (P : XP Ct) (cfg : CCfg) (t : CTape) (n sn : Bytes) (pq : Nat) (fps : List Nat)
